@@ -13,11 +13,17 @@
         applied next to another chain or on a MAYBE parent is never reported fully valid by that application
         (C20_maybe_level_never_reported_full);
       * the unapply discipline (applied, parent applied, no applied child) (C20_unapply_order).
+      * over ALL continuations of ALL histories: a block that was reported fully valid in ANY of the three ways (level
+        CAN_BE_APPLIED, target of a successful setState, winner of a comparePopScore) keeps the level in every later state
+        (C20_reported_full_persists, C20_levels_never_lowered) and setState to it returns TRUE from every later state in
+        which it carries no failure mark (C20_later_reactivation); the re-activation sweep of the check (react_seq, the
+        model function that is run against the implementation's `react`) can answer false only for a block with a
+        failure mark (C20_react_sweep_sound).
     No _partial theorem is left for this property. (Finalization and altchain invalidate/revalidate are outside the
     model: the premise "not invalidated" is the FAILED_* flags of the block; they are exercised on the implementation
     by the re-activation oracle.) *)
 From Coq Require Import List ZArith NArith Bool.
-From VB Require Import Pop.SmDefs Pop.SmProofs Pop.SmWf Pop.SmTruth Pop.SmCmp Pop.SmAll Pop.SmCoh Pop.SmFull Pop.SmReact.
+From VB Require Import Pop.SmDefs Pop.SmProofs Pop.SmWf Pop.SmTruth Pop.SmCmp Pop.SmAll Pop.SmCoh Pop.SmFull Pop.SmReact Pop.SmLaterDefs Pop.SmLater.
 Local Open Scope Z_scope.
 
 Theorem C20_full_level_guard :
@@ -68,3 +74,33 @@ Theorem C20_full_validity_truthful :
               exists p', replay (bgs s (depth s (b_id _ b)) (b_id _ b)) base = Some p'.
 Proof. exact full_validity_truthful_all. Qed.
 Print Assumptions C20_full_validity_truthful.
+
+(** all continuations of all histories *)
+Theorem C20_levels_never_lowered :
+  forall u j ops s s', lvl_ge u j s -> run s ops = Ok s' -> lvl_ge u j s'.
+Proof. exact lvl_ge_run. Qed.
+Print Assumptions C20_levels_never_lowered.
+
+Theorem C20_reported_full_persists :
+  forall base s t ops s2,
+    reachable base s -> reported_full s t -> run s ops = Ok s2 -> lvl_ge L_FULL t s2.
+Proof. exact reported_full_persists. Qed.
+Print Assumptions C20_reported_full_persists.
+
+Theorem C20_later_reactivation :
+  forall base s t ops s2 b2,
+    reachable base s -> reported_full s t ->
+    run s ops = Ok s2 ->
+    find ccmd (blocks _ _ s2) t = Some b2 -> is_failed _ b2 = false ->
+    exists s3, c_setState s2 t = Ok (s3, true).
+Proof. exact later_reactivation. Qed.
+Print Assumptions C20_later_reactivation.
+
+Theorem C20_react_sweep_sound :
+  forall base ids s s' l,
+    reachable base s -> react_seq s ids = Ok (s', l) ->
+    reachable base s' /\ map fst l = ids /\
+    forall t, In (t, false) l -> lvl_ge L_FULL t s ->
+              exists ops s1 b1, run s ops = Ok s1 /\ find ccmd (blocks _ _ s1) t = Some b1 /\ is_failed _ b1 = true.
+Proof. exact react_seq_sound. Qed.
+Print Assumptions C20_react_sweep_sound.
